@@ -3,7 +3,8 @@
 From Coq Require Import ZArith List Lia Bool.
 Import ListNotations.
 From LX Require Import Base.ListAux Generated.Consts Model.ModuleWf Model.Gate Proofs.GateProofs Model.Bounds Proofs.BoundsProofs Model.Envelope Proofs.EnvelopeProofs Generated.MixTables Model.Lfo Proofs.LfoProofs
-  Model.ModLoad Proofs.ModLoadProofs Model.C669Load Proofs.C669LoadProofs Model.MtmLoad Proofs.MtmLoadProofs Model.S3MLoad Proofs.S3MLoadProofs.
+  Model.ModLoad Proofs.ModLoadProofs Model.C669Load Proofs.C669LoadProofs Model.MtmLoad Proofs.MtmLoadProofs Model.S3MLoad Proofs.S3MLoadProofs
+  Model.SampleLoad Proofs.SampleLoadProofs Model.MixKernel Proofs.MixKernelProofs Proofs.SampleKernelProofs.
 Local Open Scope Z_scope.
 
 (* Whatever a loader produced from whatever bytes: if the module passed the gate with the loaders' post-condition and has
@@ -160,3 +161,20 @@ Theorem screamtracker3_file_is_safe_to_consume : forall file r m,
   Forall (fun b => 0 <= b <= 255) file -> s3m_raw file = Some r -> finish r = Some m -> seqs_okb m = true -> consumers_okb m = true.
 Proof. intros. apply wf_consumers, noseq_and_seqs_give_public; [eapply s3m_loaded_module_is_wf; eauto|assumption]. Qed.
 Print Assumptions screamtracker3_file_is_safe_to_consume.
+
+(* ---------------------------------------------------------------- the mixer's segment rule keeps the kernels inside the sample block ---------
+   mixer.c asks a kernel for at most ceil((end - pos) / step) output frames per segment, i.e. for a count with
+   frac + (count - 1) * step < (E - P) * 65536, E <= len being the voice's end.  For a sample loaded by libxmp_load_sample (C20's
+   model of the block: 4 guard bytes, the data, 4 guard frames) and every kernel of mix_all.c (C14's model) that rule is enough:
+   every read of the call - the spline's frame behind and two ahead, the nearest kernels' half-frame rounding - is inside the
+   block.  (8-bit samples, mono and stereo, playing forwards; the 16-bit layouts follow the same way from
+   loaded_16bit_sample_block_covers_every_kernel_read of C20.) *)
+Theorem forward_segment_reads_inside_the_sample_block : forall skip flags s file pos nbuf s' blk pos' c a count ramp st buf P E,
+  load_sample skip flags s file pos nbuf = Loaded s' blk pos' ->
+  framelen_of (SampleLoad.s_flg s) = chn_of c ->
+  0 <= s_frac st < 65536 -> s_pos st = P * chn_of c -> 0 <= P -> E <= SampleLoad.s_len s' -> 0 < a_step a ->
+  s_frac st + (count - 1) * a_step a < (E - P) * 65536 ->
+  (Z.to_nat (Z.max 0 count) * (if k_sout c then 2 else 1) <= length buf)%nat ->
+  kernel c {| m_data := blk; m_base := 4 |} a count ramp st buf <> None.
+Proof. exact forward_segment_reads_inside_block_8bit. Qed.
+Print Assumptions forward_segment_reads_inside_the_sample_block.
